@@ -30,7 +30,7 @@ def run(ctx):
     try:
         from rules import lib_reader
         lib_reader.check(ctx, "read")
-        R.floor("PANIC", 6)
+        R.floor("PANIC", 3)
         R.floor("ALG", 2)
         R.floor("DISP", 6)
     except ImportError:
